@@ -138,8 +138,7 @@ pub fn l16_inv(mut m: [u8; 16]) -> [u8; 16] {
 // @ob name=c_l16 props=C07,C20 fn=kuznyechik::utils::l_step uses=c_l_step,c_ell_tables timeout=600
 #[kani::proof]
 #[kani::stub(l_step, spec_l_step)]
-#[kani::stub(bcref::kuznyechik::ell, ruf::ell)]
-#[kani::unwind(151)]
+#[kani::unwind(17)]
 fn c_l16() {
     let msg: [u8; 16] = kani::any();
     assert!(kz::eq(&l16(msg), &kz::l(&msg)));
@@ -148,8 +147,7 @@ fn c_l16() {
 // @ob name=c_l16_inv props=C07,C20 fn=kuznyechik::utils::l_step uses=c_l_step,c_ell_tables timeout=600
 #[kani::proof]
 #[kani::stub(l_step, spec_l_step)]
-#[kani::stub(bcref::kuznyechik::ell, ruf::ell)]
-#[kani::unwind(151)]
+#[kani::unwind(17)]
 fn c_l16_inv() {
     let msg: [u8; 16] = kani::any();
     assert!(kz::eq(&l16_inv(msg), &kz::l_inv(&msg)));
